@@ -68,81 +68,65 @@ func verifQueue(size int) (*ShardQueue, *verifMon) {
 	return NewShardQueue(size, c), m
 }
 
-// Two adders, one getter each, shard count 1 or 2, no Close: every getter is invoked exactly
-// once and a Flush follows its Append without any further Add.
+// Coarse-grained schedules (sequential): a script of up to 5 steps, each one of
+//   Add(next getter) | run one pending worker task to completion | Close
+// chosen by the solver, over a queue of 1..3 shards. The worker task runs atomically between
+// user calls (fine-grained interleavings inside Add/worker are NOT covered: the partial-order
+// exploration of this pointer-rich code does not converge, see DESIGN 5.18).
 //
-//verif:po
-//verif:bounds size in {1,2}; 2 adder threads x 1 Add; worker respawn <= 3; spin/loop unrolling 3
-//verif:param 1 2
-//verif:loop 3
-func verifHarness_C17_add2(size int) {
+// Oracle: no getter is invoked twice; after every pending task has run, every getter added
+// before Close was invoked exactly once and a Flush followed the last Append; Adds after Close
+// invoke nothing; Close returns only when the trigger counter is zero; the trigger ring never
+// loses an entry when adds outnumber the shards.
+//
+//verif:bounds shards 1..3; <= 5 steps (Add / run worker / Close); <= 4 getters; worker tasks run atomically
+//verif:param 1 3
+//verif:loop 40
+//verif:replay interp
+//verif:blockok
+func verifHarness_C17_script(size int) {
 	q, m := verifQueue(size)
 	var buf netpoll.Writer = &verifWriter{m: m}
-	g0 := verifGetter(m, 0, buf)
-	g1 := verifGetter(m, 1, buf)
-	verifThread("adder0", func() { q.Add(g0); verifReach("add0") })
-	verifThread("adder1", func() { q.Add(g1); verifReach("add1") })
-	verifFinal("quiescent", func() {
-		verifAssert(atomic.LoadInt32(&m.inv[0]) == 1, "C17/getter0-not-invoked-once")
-		verifAssert(atomic.LoadInt32(&m.inv[1]) == 1, "C17/getter1-not-invoked-once")
-		verifAssert(atomic.LoadInt32(&m.appended) == 0, "C17/append-without-flush")
-		verifAssert(atomic.LoadInt32(&q.trigger) == 0, "C17/trigger-not-zero")
-	})
-}
-
-// One adder issuing a burst of three Adds into a ring of size 2 (wraps the trigger ring) while
-// the worker runs.
-//
-//verif:po
-//verif:bounds size 2; 1 adder x 3 Adds (ring wrap); worker respawn <= 3; unrolling 4
-//verif:loop 4
-func verifHarness_C17_burst() {
-	q, m := verifQueue(2)
-	var buf netpoll.Writer = &verifWriter{m: m}
-	g0 := verifGetter(m, 0, buf)
-	g1 := verifGetter(m, 1, buf)
-	g2 := verifGetter(m, 2, buf)
-	verifThread("adder", func() { q.Add(g0); q.Add(g1); q.Add(g2); verifReach("added") })
-	verifFinal("quiescent", func() {
-		verifAssert(atomic.LoadInt32(&m.inv[0]) == 1, "C17/getter0-not-invoked-once")
-		verifAssert(atomic.LoadInt32(&m.inv[1]) == 1, "C17/getter1-not-invoked-once")
-		verifAssert(atomic.LoadInt32(&m.inv[2]) == 1, "C17/getter2-not-invoked-once")
-		verifAssert(atomic.LoadInt32(&m.appended) == 0, "C17/append-without-flush")
-	})
-}
-
-// Close concurrent with an Add: a getter whose Add returned before Close was called has been
-// invoked when Close returns; an Add that starts after Close returned invokes nothing.
-//
-//verif:po
-//verif:bounds size 1; 1 adder (Add, then a late Add after Close returned) ; 1 closer; unrolling 4
-//verif:loop 4
-func verifHarness_C17_close() {
-	q, m := verifQueue(1)
-	var buf netpoll.Writer = &verifWriter{m: m}
-	g0 := verifGetter(m, 0, buf)
-	g1 := verifGetter(m, 1, buf)
-	verifThread("adder", func() {
-		q.Add(g0)
-		atomic.StoreInt32(&m.addDone[0], 1)
-		verifReach("add0")
-	})
-	verifThread("closer", func() {
-		before := atomic.LoadInt32(&m.addDone[0])
-		err := q.Close()
-		if err == nil && before == 1 {
-			verifAssert(atomic.LoadInt32(&m.inv[0]) == 1, "C17/close-returned-before-getter-handled")
+	added := 0
+	closed := false
+	addedBeforeClose := 0
+	for step := 0; step < 5; step++ {
+		switch verifPick("step", 0, 2) {
+		case 0:
+			if added < 4 {
+				q.Add(verifGetter(m, added, buf))
+				if !closed {
+					addedBeforeClose++
+				} else {
+					// an Add after Close returned is ignored
+				}
+				added++
+			}
+		case 1:
+			verifRunPending()
+		case 2:
+			if !closed {
+				// Close spins until the worker has drained: in a sequential schedule it can
+				// only be called when no task is pending
+				verifAssume(atomic.LoadInt32(&q.trigger) == 0)
+				err := q.Close()
+				verifAssert(err == nil, "C17/close-error")
+				closed = true
+			}
 		}
-		atomic.StoreInt32(&m.closedQ, 1)
-		verifReach("closed")
-	})
-	verifThread("late", func() {
-		if atomic.LoadInt32(&m.closedQ) == 1 {
-			q.Add(g1)
-			verifAssert(atomic.LoadInt32(&m.inv[1]) == 0, "C17/add-after-close-invoked")
+	}
+	for verifRunPending() {
+	}
+	for k := 0; k < 4; k++ {
+		n := atomic.LoadInt32(&m.inv[k])
+		verifAssert(n <= 1, "C17/getter-invoked-twice")
+		if k < addedBeforeClose {
+			verifAssert(n == 1, "C17/getter-added-before-close-not-invoked")
+		} else if k < added {
+			verifAssert(n == 0, "C17/add-after-close-invoked-getter")
 		}
-	})
-	verifFinal("quiescent", func() {
-		verifAssert(atomic.LoadInt32(&m.inv[0]) <= 1, "C17/getter0-twice")
-	})
+	}
+	verifAssert(atomic.LoadInt32(&m.appended) == 0, "C17/append-without-flush")
+	verifAssert(atomic.LoadInt32(&q.trigger) == 0, "C17/trigger-not-zero-at-quiescence")
+	verifReach("end")
 }
